@@ -34,6 +34,8 @@ def local_defs(fn, name):
                     elif n.get("k") == "call":
                         th = n.get("this")
                         if th is not None and ir.unwrap(th) is ir.unwrap(lv):
+                            if short(n.get("name") or "") in ("back", "front", "begin", "end", "at", "data", "operator[]", "rbegin", "rend"):
+                                continue  # non-const overload of an observer: reads only
                             out.append(("method", n, n))
                         else:
                             out.append(("out-param", n, n))
